@@ -43,14 +43,17 @@ TokVal(kind, i) ==
     [] kind = "int"    -> ToString(10 + i)
     [] kind = "nint"   -> "-" \o ToString(10 + i)
     [] kind = "float"  -> ToString(i) \o ".5"
+    [] kind = "ifloat" -> ToString(i) \o ".0"          \* an integer-valued float (C12)
+    [] kind = "empty"  -> ""                           \* the empty quoted string ""
     [] OTHER           -> kind
-NumKind(k) == k \in {"int","nint","float"}
+NumKind(k) == k \in {"int","nint","float","ifloat"}
 Tk(kind, i) == [t |-> kind, v |-> TokVal(kind, i), pv |-> IF NumKind(kind) THEN TokVal(kind, i) ELSE ""]
 Sy(t) == [t |-> t, v |-> t, pv |-> ""]
-IsTermTok(tok) == tok.t \in {"word","quoted","wild","star","regexp","int","nint","float"}
+IsTermTok(tok) == tok.t \in {"word","quoted","wild","star","regexp","int","nint","float","ifloat","empty"}
 \* what a term token denotes (REF, property C06/C08): a typed leaf
 RLeaf(tok) ==
-  CASE tok.t \in {"word","quoted"} -> [op |-> "LIT", ty |-> "str", v |-> tok.v, sg |-> "x"]
+  CASE tok.t \in {"word","quoted","empty"} -> [op |-> "LIT", ty |-> "str", v |-> tok.v, sg |-> "x"]
+    [] tok.t = "ifloat"            -> [op |-> "LIT", ty |-> "float", v |-> ToString(CHOOSE k \in 0..400 : ToString(k) \o ".0" = tok.v), sg |-> "p"]
     [] tok.t = "int"               -> [op |-> "LIT", ty |-> "int", v |-> tok.v, sg |-> "p"]
     [] tok.t = "nint"              -> [op |-> "LIT", ty |-> "int", v |-> tok.v, sg |-> "n"]
     [] tok.t = "float"             -> [op |-> "LIT", ty |-> "float", v |-> tok.v, sg |-> "p"]
@@ -101,6 +104,8 @@ LeafForm(k, p, vp) ==
     [] k = "feqint"   -> FieldVal(p, "int", vp)
     [] k = "feqfloat" -> FieldVal(p, "float", vp)
     [] k = "feqq"     -> FieldVal(p, "quoted", vp)
+    [] k = "feqifloat" -> FieldVal(p, "ifloat", vp)
+    [] k = "feqempty" -> FieldVal(p, "empty", vp)
     [] k = "fwild"    -> FieldVal(p, "wild", vp)
     [] k = "fstar"    -> FieldVal(p, "star", vp)
     [] k = "fre"      -> FieldVal(p, "regexp", vp)
